@@ -10,6 +10,7 @@ package c43
 import (
 	"bytes"
 	"crypto/ed25519"
+	"crypto/sha256"
 	"fmt"
 	"os"
 	"path/filepath"
@@ -158,6 +159,31 @@ func wrongPasswords(p []byte, rng *rand.Rand) []wrongPwd {
 	return out
 }
 
+// hmacNorm is how HMAC (inside PBKDF2 inside scrypt) turns a password into its key block: longer
+// than one SHA-256 block -> hashed, then right-padded with zero bytes. Two different passwords with
+// the same block are still *different passwords* for the property; the function only classifies a
+// violation so that this shape gets its own stable key.
+func hmacNorm(p []byte) string {
+	if len(p) > 64 {
+		h := sha256.Sum256(p)
+		p = h[:]
+	}
+	return string(bytes.TrimRight(p, "\x00"))
+}
+
+// structuralWrong are other passwords that are always tried (not sampled).
+func structuralWrong(p []byte) []wrongPwd {
+	var out []wrongPwd
+	if len(p) < 64 {
+		out = append(out, wrongPwd{"nul-appended", append(append([]byte{}, p...), 0)})
+	}
+	if len(p) > 64 {
+		h := sha256.Sum256(p)
+		out = append(out, wrongPwd{"sha256-of-long-password", h[:]})
+	}
+	return out
+}
+
 var labelClasses = []string{"empty", "ascii", "unicode", "json-special", "long", "invalid-utf8"}
 
 func genLabel(class string, uniq string, rng *rand.Rand) string {
@@ -230,7 +256,22 @@ type made struct {
 }
 
 type ctx struct {
-	r *kit.Run
+	r    *kit.Run
+	mu   sync.Mutex
+	seen map[string]int
+}
+
+// vio reports a violation; after 2 reports of the same stable key further occurrences are only
+// counted (the kit stops writing replays after 50 violations, which would hide other keys).
+func (x *ctx) vio(key, what string, replay interface{}) {
+	x.mu.Lock()
+	x.seen[key]++
+	n := x.seen[key]
+	x.mu.Unlock()
+	x.r.Count("violations:"+key, 1)
+	if n <= 2 {
+		x.r.Violation(key, what, replay)
+	}
 }
 
 // checkAccount is the oracle for one (reloaded client, account): right password → same key pair
@@ -241,24 +282,24 @@ func (x *ctx) checkAccount(cli account.Client, m *made, how string, rng *rand.Ra
 	same := func(got *account.Account, err error, via string) bool {
 		r.Eval(1)
 		if err != nil || got == nil {
-			r.Violation("right-password-refused:"+how+":"+via, fmt.Sprintf("%s pwd-class=%s via %s: err=%v acc-nil=%v", m.c, m.pclass, via, err, got == nil), replay)
+			x.vio("right-password-refused:"+how+":"+via, fmt.Sprintf("%s pwd-class=%s via %s: err=%v acc-nil=%v", m.c, m.pclass, via, err, got == nil), replay)
 			return false
 		}
 		if ok, why := privEqual(m.acc.PrivateKey, got.PrivateKey); !ok {
-			r.Violation("private-key-differs:"+how, fmt.Sprintf("%s via %s: %s", m.c, via, why), replay)
+			x.vio("private-key-differs:"+how, fmt.Sprintf("%s via %s: %s", m.c, via, why), replay)
 			return false
 		}
 		if !keypair.ComparePublicKey(m.acc.PublicKey, got.PublicKey) ||
 			!bytes.Equal(keypair.SerializePublicKey(m.acc.PublicKey), keypair.SerializePublicKey(got.PublicKey)) {
-			r.Violation("public-key-differs:"+how, fmt.Sprintf("%s via %s", m.c, via), replay)
+			x.vio("public-key-differs:"+how, fmt.Sprintf("%s via %s", m.c, via), replay)
 			return false
 		}
 		if m.acc.Address != got.Address || got.Address.ToBase58() != m.addr {
-			r.Violation("address-differs:"+how, fmt.Sprintf("%s via %s: %s vs %s", m.c, via, got.Address.ToBase58(), m.addr), replay)
+			x.vio("address-differs:"+how, fmt.Sprintf("%s via %s: %s vs %s", m.c, via, got.Address.ToBase58(), m.addr), replay)
 			return false
 		}
 		if got.SigScheme != m.c.scheme {
-			r.Violation("sig-scheme-differs:"+how, fmt.Sprintf("%s via %s: got %s", m.c, via, got.SigScheme.Name()), replay)
+			x.vio("sig-scheme-differs:"+how, fmt.Sprintf("%s via %s: got %s", m.c, via, got.SigScheme.Name()), replay)
 			return false
 		}
 		r.Count("right_password_same_keys", 1)
@@ -278,7 +319,7 @@ func (x *ctx) checkAccount(cli account.Client, m *made, how string, rng *rand.Ra
 		// a scheme/curve pair that cannot sign at all is not a wallet round-trip matter; record it
 		r.Count("sign_unsupported:"+m.c.crvName+"/"+m.c.scheme.Name(), 1)
 	} else if err := signature.Verify(m.acc.PublicKey, msg, sig); err != nil {
-		r.Violation("reloaded-key-signature-rejected:"+how, fmt.Sprintf("%s: %v", m.c, err), replay)
+		x.vio("reloaded-key-signature-rejected:"+how, fmt.Sprintf("%s: %v", m.c, err), replay)
 	} else {
 		r.Count("reloaded_key_signs_for_original_pub", 1)
 	}
@@ -298,7 +339,7 @@ func (x *ctx) checkAccount(cli account.Client, m *made, how string, rng *rand.Ra
 	}
 	md := cli.GetAccountMetadataByAddress(m.addr)
 	if md == nil || md.Address != m.addr || md.PubKey != kit.Hex(keypair.SerializePublicKey(m.acc.PublicKey)) {
-		r.Violation("metadata-differs:"+how, fmt.Sprintf("%s: %+v", m.c, md), replay)
+		x.vio("metadata-differs:"+how, fmt.Sprintf("%s: %+v", m.c, md), replay)
 	}
 	ws := wrongPasswords(m.pwd, rng)
 	if wrongN < len(ws) {
@@ -306,6 +347,7 @@ func (x *ctx) checkAccount(cli account.Client, m *made, how string, rng *rand.Ra
 		rng.Shuffle(len(ws), func(i, j int) { ws[i], ws[j] = ws[j], ws[i] })
 		ws = ws[:wrongN]
 	}
+	ws = append(ws, structuralWrong(m.pwd)...)
 	for _, w := range ws {
 		if bytes.Equal(w.pwd, m.pwd) {
 			continue
@@ -315,7 +357,16 @@ func (x *ctx) checkAccount(cli account.Client, m *made, how string, rng *rand.Ra
 		r.Distinct("wrong", m.c.String(), m.pclass, w.kind, how)
 		if err == nil || a != nil {
 			rp := map[string]interface{}{"combo": m.c.String(), "pwd_hex": kit.Hex(m.pwd), "wrong_hex": kit.Hex(w.pwd), "kind": w.kind, "how": how}
-			r.Violation("wrong-password-accepted:"+w.kind, fmt.Sprintf("%s pwd-class=%s: %s password opened the account", m.c, m.pclass, w.kind), rp)
+			if hmacNorm(w.pwd) == hmacNorm(m.pwd) {
+				shape := "trailing-nul"
+				if len(w.pwd) > 64 || len(m.pwd) > 64 {
+					shape = "long-password-vs-its-sha256"
+				}
+				x.vio("other-password-accepted:hmac-key-equivalent:"+shape,
+					fmt.Sprintf("%s pwd-class=%s: a different password (%s) opened the account; both passwords give the same HMAC key block inside scrypt/PBKDF2", m.c, m.pclass, w.kind), rp)
+				continue
+			}
+			x.vio("wrong-password-accepted:"+w.kind, fmt.Sprintf("%s pwd-class=%s: %s password opened the account", m.c, m.pclass, w.kind), rp)
 			continue
 		}
 		r.Count("wrong_password_refused", 1)
@@ -355,7 +406,7 @@ func (x *ctx) runJob(j job, root string) {
 		var acc *account.Account
 		var err error
 		if p := kit.Catch(func() { acc, err = cli.NewAccount(label, cs.c.kt, cs.c.curve, cs.c.scheme, pwd) }); p != nil {
-			r.Violation("newaccount-panic:"+cs.c.ktName+"/"+cs.c.crvName, fmt.Sprintf("%s: %v", cs.c, p), map[string]interface{}{"combo": cs.c.String(), "pwd_hex": kit.Hex(pwd)})
+			x.vio("newaccount-panic:"+cs.c.ktName+"/"+cs.c.crvName, fmt.Sprintf("%s: %v", cs.c, p), map[string]interface{}{"combo": cs.c.String(), "pwd_hex": kit.Hex(pwd)})
 			return nil
 		}
 		if err != nil || acc == nil {
@@ -386,11 +437,11 @@ func (x *ctx) runJob(j job, root string) {
 	// ---- reload from the file with a fresh client
 	cli2, err := account.Open(path)
 	if err != nil {
-		r.Violation("saved-wallet-unreadable", fmt.Sprintf("job %d: %v", j.id, err), map[string]interface{}{"labels": labelsOf(ms)})
+		x.vio("saved-wallet-unreadable", fmt.Sprintf("job %d: %v", j.id, err), map[string]interface{}{"labels": labelsOf(ms)})
 		return
 	}
 	if cli2.GetAccountNum() != len(ms) {
-		r.Violation("account-count-differs-after-reload", fmt.Sprintf("job %d: %d vs %d", j.id, cli2.GetAccountNum(), len(ms)), nil)
+		x.vio("account-count-differs-after-reload", fmt.Sprintf("job %d: %d vs %d", j.id, cli2.GetAccountNum(), len(ms)), nil)
 	}
 	for _, m := range ms {
 		r.Distinct("created", m.c.String(), m.pclass, m.lclass, j.scrypt)
@@ -398,7 +449,7 @@ func (x *ctx) runJob(j job, root string) {
 	}
 	// default account = the first one
 	if d, err := cli2.GetDefaultAccount(ms[0].pwd); err != nil || d == nil || d.Address != ms[0].acc.Address {
-		r.Violation("default-account-differs", fmt.Sprintf("job %d err=%v", j.id, err), nil)
+		x.vio("default-account-differs", fmt.Sprintf("job %d err=%v", j.id, err), nil)
 	}
 
 	// ---- import path: export metadata from the reloaded wallet, import into another wallet file
@@ -415,7 +466,7 @@ func (x *ctx) runJob(j job, root string) {
 			continue
 		}
 		if err := cli3.ImportAccount(md); err != nil {
-			r.Violation("import-refused", fmt.Sprintf("%s: %v", m.c, err), map[string]interface{}{"combo": m.c.String()})
+			x.vio("import-refused", fmt.Sprintf("%s: %v", m.c, err), map[string]interface{}{"combo": m.c.String()})
 			continue
 		}
 		im := *m
@@ -426,7 +477,7 @@ func (x *ctx) runJob(j job, root string) {
 	}
 	cli4, err := account.Open(path2)
 	if err != nil {
-		r.Violation("saved-wallet-unreadable", fmt.Sprintf("job %d (import): %v", j.id, err), nil)
+		x.vio("saved-wallet-unreadable", fmt.Sprintf("job %d (import): %v", j.id, err), nil)
 		return
 	}
 	for _, m := range imported {
@@ -442,7 +493,7 @@ func (x *ctx) runJob(j job, root string) {
 			pwds[i] = m.pwd
 		}
 		if err := wd.ToLowSecurity(pwds); err != nil {
-			r.Violation("tolowsecurity-failed", fmt.Sprintf("job %d: %v", j.id, err), nil)
+			x.vio("tolowsecurity-failed", fmt.Sprintf("job %d: %v", j.id, err), nil)
 			return
 		}
 		path3 := filepath.Join(dir, "low.dat")
@@ -452,7 +503,7 @@ func (x *ctx) runJob(j job, root string) {
 		}
 		cli5, err := account.Open(path3)
 		if err != nil {
-			r.Violation("saved-wallet-unreadable", fmt.Sprintf("job %d (low): %v", j.id, err), nil)
+			x.vio("saved-wallet-unreadable", fmt.Sprintf("job %d (low): %v", j.id, err), nil)
 			return
 		}
 		for _, m := range ms {
@@ -467,7 +518,7 @@ func (x *ctx) runJob(j job, root string) {
 			nm.index = cli5.GetAccountNum()
 			cli6, err := account.Open(path3)
 			if err != nil {
-				r.Violation("saved-wallet-unreadable", fmt.Sprintf("job %d (low, after new): %v", j.id, err), nil)
+				x.vio("saved-wallet-unreadable", fmt.Sprintf("job %d (low, after new): %v", j.id, err), nil)
 				return
 			}
 			r.Distinct("low-new", nm.c.String(), nm.pclass)
@@ -500,7 +551,7 @@ func TestC43(t *testing.T) {
 
 	root := pk.TempDir("c43")
 	defer os.RemoveAll(root)
-	x := &ctx{r: r}
+	x := &ctx{r: r, seen: map[string]int{}}
 	combos := allCombos()
 	rng := r.Rand("plan")
 	// plan: every combination × pwdPerCombo password classes (rotating so that every class meets
